@@ -137,6 +137,20 @@ class SStr:
             raise OutsideSubset("prefix/suffix test across a numeric field")
         return False
 
+    def rstrip(self, chars=None):
+        if chars is None or any(ch.isdigit() for ch in chars):
+            raise OutsideSubset("rstrip of digits / whitespace on a chunked string")
+        shape = self.concrete_shape("0")
+        n = len(shape.rstrip(chars))
+        return self.slice(0, n)
+
+    def lstrip(self, chars=None):
+        if chars is None or any(ch.isdigit() for ch in chars):
+            raise OutsideSubset("lstrip of digits / whitespace on a chunked string")
+        shape = self.concrete_shape("0")
+        n = len(shape) - len(shape.lstrip(chars))
+        return self.slice(n, None)
+
     def upper(self):
         return SStr([c.upper() if isinstance(c, str) else c for c in self.chunks])
 
